@@ -87,6 +87,11 @@ class ExprMixin:
             r = self.resolve_import(origin, name, fr)
             if r is not None:
                 return r
+            import os as _os
+            mp = origin.lstrip('.')
+            for root in (self.tree.root, '/venv/lib/python3.12/site-packages'):
+                if _os.path.isdir(_os.path.join(root, mp.replace('.', '/'))) or _os.path.exists(_os.path.join(root, mp.replace('.', '/') + '.py')):
+                    return ModuleVal(origin)          # an imported module / package used as a namespace
             return self.unknown_name(name, origin, st, fr)
         # defined in this module?
         for n in mod.body:
